@@ -159,3 +159,110 @@ TABLE = [
 
 # id -> reason it is currently not claimed
 PENDING = {}
+
+# Extensions of the audit wave (DESIGN.md section 15): id -> (text appended to the level text, replacement of the level note)
+AUDIT = {
+    'C01': ('Audit extension: the empty input; letters "read ends exactly behind barcode+UMI" and lower-case bases; phred 10 (+) and 31 (@); '
+            'input-file forms (gzip, no final newline, "+name" separator lines, .fq.gz); several strategies selected at once (5 sets of 2-3 '
+            'strategies, judged by the clauses both readings of the property share); demux.py over 31 option / file-name forms (-n at and around '
+            'chunk and lane boundaries, two lanes, --se, --norejects, -hd 1, -use A,B, two libraries, -merge, --ignore, auto-detection) and the '
+            'scheduler mode with an sbatch stand-in executing the generated lane and glue jobs; demultiplexing.log counters compared per block.',
+            'Without a reject handle only the demultiplexed side and the counters are compared; with several strategies a pair may legitimately '
+            'reach both sinks (once per strategy); mate files of unequal length, three-file libraries and mixed single/paired lanes are outside '
+            '"well-formed" and not generated.'),
+    'C02': ('Audit extension: 51 position-code variants so that every UMI / ligation / primer position sees every phred 0..51 and a walking N; '
+            'the probe keyword (None/True) x content classes; single-end and 3-read input for every strategy; all 28x28 strategy chains on one '
+            'record tuple; loader configurations (default at expansion 0 and 1, indexFileAlias=None, a user barcode directory that makes '
+            'CHROMC16U12 and the DamID branch of DamID2andT_3u4b3u6b non-vacuous); the written FASTQ lines 2 and 4 equal the record.',
+            'The layout table is a transcription of the class descriptions/TAGS.MD; rows backed only by code comments are marked weak and cannot '
+            'alarm. MX/QT/eq tags, expansion 2 and constructor arguments no registered strategy uses are not checked.'),
+    'C03': ('Audit extension: file level as a full product of 7 column layouts x gz x 5 lazyLoad forms x k x 8 accessor histories, each case with '
+            'three live parsers (decoy directory with same-named files, parser under test, sibling with another k and spaceFill); file formats '
+            '(no final newline, CRLF, trailing blank, repeated line, index 0, all-N whitelists); expansion histories on a fresh parser '
+            '(every non-decreasing sequence of expand() calls x lookups between calls x constructor k x index type).',
+            'Whitelists are sets of equal-length ACGTN strings; blank/comment lines, >2 columns (refused by the parser), shrinking re-expansion and '
+            'barcodes added after an expansion are outside the domain.'),
+    'C04': ('Audit extension: five loader configurations (default alias, none, two shipped index aliases with non-numeric identifiers, Hamming-1 '
+            'barcodes so that raw != corrected barcode); header shapes 10-field, filter Y / control 18, already-demultiplexed k:v headers; each '
+            'pair handed to the flagger as [R1,R2], [R1,None], [None,R2]; cell index 0; a refusal is accepted only when the name really exceeds '
+            '254 characters; name-level clause (every k:v pair in the produced name comes back as written); Single Cell Discoveries names.',
+            'MI/SM only demanded when the encoder produced the fields they derive from; qualities above the top letter saturate by design; dual '
+            'indices with "+" and "/1" suffixed headers are outside the stated header-safe alphabet.'),
+    'C05': ('Audit extension: -tagthreads 1..4; job builder up to 12 contigs and contig lengths 99 999 / 100 000; CIGARs with clips, indels and '
+            'skips; QC-failed, duplicate-flagged, mate-unmapped, single-end, sparsely tagged, secondary/supplementary input records; input '
+            'headers with @RG/@PG/@CO lines; input index fresh / missing / stale / .csi; relative paths with the default temp folder; '
+            'read-group clauses under --no_rejects; a second tagging pass over a tagged BAM for every method pair.',
+            'Reads are pre-tagged (SM/RX); the fate of secondary/supplementary records is not claimed; mate numbers are compared only on records '
+            'carrying the paired flag; samtools absent so the pysam merge/sort paths run; options outside "default options" (-head, -contig, '
+            '-blacklist, --consensus) belong to C08/C15/C20.'),
+    'C06': ('Audit extension: per class a second alphabet (second contig at equal coordinates, single-end copies, rejected fragments with '
+            'yield_invalid on/off, R2-only fragments, a UMI of another length, rS random-primer tag, CHIC sites at radius and radius+1, NlaIII '
+            'with use_allele_tag and DA a/b/absent); stale RC/af/TF tags of an earlier run; af/TF/RC demanded on every record; a deep '
+            'same-site slice (all sequences of 4-5 fragments over 4 UMIs) exercising the moving representative UMI.',
+            'Truth is the simulator\'s (cell, contig, site, strand, UMI[, allele]); N in a UMI is treated as an uncalled base; mi (written by the '
+            'tagger), RC=0 being the non-duplicate fragment and untagged-joins-tagged alleles are not judged.'),
+    'C07': ('Audit extension: every option branch of MoleculeIterator under every schedule (yield_invalid, every_fragment_as_molecule, '
+            'skip_contigs, min_mapping_qual, fragment cap with yield_overflow on/off, max_buffer_size at every limit, perform_qflag with a '
+            'progress callback, second and abandoned iterations, tuple / 1-tuple / bare-segment input); the iterator reading a sorted indexed BAM '
+            'itself (MatePairIterator, ReadIterator, fetch windows); every permutation of small multisets with check_eject_every=None.',
+            'Fragments span < half the cache size; UMIs compared exactly; with ejection the input is sorted (the documentation requires it); '
+            'allele clustering and the TAPS / feature classes share the same ejection code and are not generated.'),
+    'C08': ('Audit extension: -tagthreads 1..8 under the owned scheduler and free-running real-Pool runs; methods qflag, nla_no_overhang, '
+            'nla_taps, chic_taps, nla_transcriptome, scartrace with generated FASTA/GTF; libraries empty / unmapped-only / single molecule / '
+            'odd fragments on every job boundary; a one-base mate at exactly the longest fragment distance (no margin slack); 13 further options; '
+            'the ownership clause observed directly (every job file read, each read-1 DS inside that job\'s bins).',
+            'Fetch margin >= longest fragment; no blacklist (the tiling refuses it, the CLI path needs bedtools); per-run identifiers and order '
+            'among equal coordinates not compared; methods whose serial pass itself fails are labelled, not judged.'),
+    'C09': ('Audit extension: NlaIII no_overhang mode on real indexed FASTA references and their reverse complements (exact / soft-masked / '
+            'substituted / absent motif, gap -1..4, clip 0..4, sites at 50, 0, 2); R1-less fragments; far-end clips, hard clips, indels; cycle '
+            'shifts -1/+2 with an either-oracle; DS/RS/RZ/qcfail of every read before and after write_tags, site_location, strand, match_hash; '
+            'a dedup kind comparing all pairs of a fragment family with == in both orders and both orientations.',
+            'BAM-level fetch is not covered; max_fragment_size and input-qcfail paths of is_valid are outside the property.'),
+    'C10': ('Audit extension: split_double_BAM.main() on a synthesised BAM and probability matrix; genomic magnitudes (bins to 1e6, coordinates '
+            'around 2^24, 248956422, 2^31-1); increments above the bin (refusal accepted, results compared); four bin tags incl. a string tag and '
+            'reference_start; 11 option dimensions at distance <=1 (quick) / <=2 (thorough) incl. -contig, -head, --splitFeatures, -byValue, '
+            'pickle / --bulk output; a bin longer than every contig (empty table); index level names must describe their level.',
+            'Weights limited to single reads and mate halves; -featureTags with -bin (refused), delimiter-containing feature values, -bedfile and '
+            'filters (C11) are not generated.'),
+    'C11': ('Audit extension: a contig in no blacklist/BED file; reads touching intervals from outside and inside; secondary/supplementary '
+            'records; empty XA; float by-value; (--splitFeatures, -featureDelimiter) as one dimension; tag / alias / attribute lookups of '
+            'metaFromRead in joined and single form; joined + -bin; reads dealt over two alignment files; -head; tables written as csv / pickle / '
+            'pickle.gz with and without --bulk read back from the file; --noNames; named two-level sample tags.',
+            'The oracle follows the CLI help strings; undocumented interactions (split + by-value, by-value or bin + bed, NM missing, XA vs NH '
+            'disagreement, -head with several files) are not judged.'),
+    'C12': ('Audit extension: dedup=False, ignore_mp, min_mq None/0, two key tags, skip_contigs (7 forms), head, alt_spans, path lists, explicit '
+            'count_function on BAMs with records lacking SM / DS, discordant pairs, MAPQ 255, two-reason records; library pairs sharing unnamed '
+            '(bulk) records; get_binned_counts and get_binned_counts_prefixed without a filter function, with regions and aliases; the installed '
+            'script in its own interpreter; read_counts as a complete truth table (144 records x 48 option sets).',
+            '|DS - read span| <= max_fragment_size; where the property is silent (head below the job count, alt_spans targets, records without '
+            'DS, coordinate regions) only "never above / once per cell / invariant under the job split" is demanded.'),
+    'C13': ('Audit extension: 28 option sets of get_consensus (dove_safe, min_phred_score at every quality boundary, only_include_refbase, '
+            'with_probs_and_obs, explicit defaults, cycle and dove-distance filters judged by vote-over-one-fragment-molecules); histories asking '
+            '7 option sets after every add_fragment with every ordered pair adjacent; wrappers get_consensus_base / _frequencies / _gc_ratio; '
+            '12-fragment molecules; phred 1, 2, 41, 93; CIGAR features inside pairs; IUPAC codes; pick_best_base_call on all words of <=3 calls.',
+            'Fragments have an R1 (R2-only fragments are skipped by the code); the position carrying an ambiguity code is left open; allow_N=True '
+            'raises NotImplementedError (a refusal).'),
+    'C15': ('Audit extension: fragments with an unmapped mate (R2 unmapped as a normal letter; R1 unmapped = strand-less molecule), class-rejected '
+            'pairs (off-site, same-strand mates) through every API and the command line with yield_invalid as bamtagmultiome configures it, '
+            'one-base deletions and soft clips, write_pysam with a consensus_read_callback, a soft-masked reference with an extra MD clause.',
+            'CHIC molecules with assignment radius >0 are not generated; "no record skips more than max_N_span" is taken from the parameter name; '
+            'the strand flag and DS of strand-less / site-less molecules and TR with an unmapped R2 are not checked.'),
+    'C17': ('Audit extension: blacklist=None, duplicated intervals, four-interval merges, every fragment size 0..R+1 at R=8; bp_chunked on every '
+            'composition x bin/gap labelling x tuple arity 3/5/6 x one or two contigs; blacklisted_binning_contigs with BED files as every word '
+            'over 8 records in 3-column / 6-column / space-separated / gzip form, lengths from pairs or a real BAM header, five whitelists, and '
+            'each tiling fed through the real bp_chunked.',
+            'Small-scope: coincidences needing coordinates beyond R or more than 2-4 blacklist intervals are not covered; the total_bins <= 0 '
+            'branches are unreachable (merge output is sorted and disjoint, checked exhaustively).'),
+    'C18': ('Audit extension: a seventh run letter (verbose, pickle round trip, region-bounded resolver, chrom restriction, unwritable cache '
+            'directory, second ignore set) whose written caches are ordinary search state; a second initial state with .unfinished left-overs; '
+            'haploid / triploid / four-allele / lower-case / * / duplicate-position records and unsorted contig order; contig-name patterns over '
+            'all ordered configuration pairs; the DA tag of every read through MoleculeIterator and write_tags across 9 resolver steps.',
+            'phased=False, missing genotypes and multi-base sites are only covered by the all-modes-agree comparison; outside a bounded '
+            'resolver\'s window an answer may be missing but never wrong; uglyMode, sites-only and un-indexed VCFs are not generated.'),
+    'C19': ('Audit extension: the third anchored writer bamSplitByTag.py (all words over a read alphabet x max_handles x head x {one call, the '
+            'real __main__ loop via runpy}; pysam replaced by a counting pass-through, Pool by the owned scheduler; command lines in a fresh '
+            'interpreter with the real Pool); FastqHandle(single_cell) single-end and without cell index; HandleLimiter forceAppend and an '
+            'explicit close() before any write of the sequence.',
+            'The OS is an in-memory store: only open() fails, and only as injected; after a legitimate raise the run stops; open failures of the '
+            'BAM splitter (no recovery mechanism) and failing close() calls are outside the fault model.'),
+}
